@@ -86,6 +86,26 @@ def run (j : Json) : Except String Json := do
                    ("baseChain", .bool (← chainedOfJson j))]
     let tru := deserializeTrusted Mp O opts cls d
     out := out ++ [("trusted", resToJson tru)]
+    if !mapperFree then
+      -- the regular path with per-class simple mappers, as `deserializeMapped` describes it (Props/C10
+      -- trusted_mapper_equiv_partial); `simpleMappers`: no class of the tree has an unsupported mapper
+      let simple ← match optField j "mappers" with
+        | some x => do
+          let bs ← (← x.getArr?).toList.mapM fun kv => do
+            let p ← kv.getArr?
+            pure (!(← mapperOfJson p[1]!).isComplex)
+          pure (bs.all id)
+        | none => pure true
+      let regM := deserializeMapped Mp O opts cls d
+      out := out ++ [("simpleMappers", .bool simple), ("plainMapped", .bool (plainDoc opts cls (untrV Mp cls d))),
+                     ("regularMapped", resToJson regM)]
+      match regM, tru with
+      | .ok x, .ok y => out := out ++ [("eqvMapped", .bool (eqv x y)),
+                                       ("serSameMapped", .bool (match serialize O cls x, serialize O cls y with
+                                          | .ok a, .ok b => PyVal.pyEq a b
+                                          | .error _, .error _ => true
+                                          | _, _ => false))]
+      | _, _ => pure ()
     if mapperFree then
       let reg := deserialize O opts cls d
       out := out ++ [("regular", resToJson reg)]
